@@ -203,6 +203,11 @@ def eq(a, b, ctx):
         v = b if a is None else a
         if isinstance(v, SData) and v.ty.dt.none_ctor is not None:
             return v.ty.dt.is_none(v.t)
+        if isinstance(v, SData):
+            try:                                  # a datatype that represents None by one of its values (Val: VNone)
+                return v.t == v.ty.dt.coerce(None, ctx)
+            except Unsupported:
+                return False
         if isinstance(v, SStr) and v.optional:
             return v.t == -1
         if isinstance(v, SOpaque):
